@@ -1457,3 +1457,54 @@ def variable_operations(rng, sch, d):
         elif "QUERY" in dd.locations:
             out.append("query Op($v: %s) %s { __typename }" % (a.type, use))
     return out
+
+
+# ------------------------------------------------------------------ schemas derived from another schema object (C20 histories)
+def make_input_fields(sch, fields_spec):
+    """InputField objects for an input type of [sch], types resolved in sch's own type map"""
+    def ref(t):
+        if t[0] == "N":
+            return sch.types[t[1]]
+        return (S.ListType if t[0] == "L" else S.NonNullType)(ref(t[1]))
+    out = []
+    for f in fields_spec:
+        kw = {}
+        if f.get("default") is not None:
+            kw["default_value"] = copy.deepcopy(f["default"]["py"])
+        out.append(S.InputField(f["name"], ref(f["type"]), **kw))
+    return out
+
+
+def derive_schema(old_spec, new_spec, mode):
+    """(old schema, new schema) where the new one is DERIVED from a schema object that has
+    already been diffed once (so every lazily computed map of its types has been read):
+      in_place      the warmed-up object itself, its input types' `fields` reassigned;
+      clone_setter  `clone()` of the warmed-up object, `fields` reassigned on the clone;
+      transform     transform_schema(warmed-up object, VisibilitySchemaTransform hiding the removed input fields)
+    only the input object types may differ between the two specs"""
+    from py_gql.schema.differ import diff_schema
+    from py_gql.schema.transforms import VisibilitySchemaTransform, transform_schema
+    src = build(old_spec)
+    ref = build(old_spec)
+    list(diff_schema(src, ref))          # warm-up: reads field_map & co. of every type of both
+    changed = []
+    newdefs = {t["name"]: t for t in new_spec["types"]}
+    for t in old_spec["types"]:
+        if t["kind"] == "input" and newdefs.get(t["name"]) != t:
+            changed.append((t, newdefs[t["name"]]))
+    if mode == "transform":
+        hidden = set()
+        for ot, nt in changed:
+            kept = [f["name"] for f in nt["fields"]]
+            assert [f for f in ot["fields"] if f["name"] in kept] == nt["fields"], "transform can only hide fields"
+            hidden |= {(ot["name"], f["name"]) for f in ot["fields"] if f["name"] not in kept}
+
+        class Hide(VisibilitySchemaTransform):
+            def is_input_field_visible(self, typename, fieldname):
+                return (typename, fieldname) not in hidden
+
+        return src, transform_schema(src, Hide())
+    target = src if mode == "in_place" else src.clone()
+    for ot, nt in changed:
+        target.types[nt["name"]].fields = make_input_fields(target, nt["fields"])
+    return (ref if mode == "in_place" else src), target
